@@ -21,7 +21,8 @@
 (* harness executes on the real code (all seven targets).                      *)
 EXTENDS Stimulus, Json, TLC
 
-CONSTANTS Emit
+CONSTANTS Emit,      \* print every lattice input as a REPLAY line
+          Stride     \* every Stride-th case of each kind (and the last); 1 = all.  > 1 only for the small -coverage run
 
 VARIABLES phase,    \* "blk": a kind of cases, "case": one case, "done"
           c         \* <<kind, index, sign>>
@@ -67,7 +68,8 @@ NCases(k) == CASE k = "u8" -> 256 [] k \in WideInts -> LatLen(k) [] k = "flt" ->
 MCInit == Init /\ phase = "blk" /\ c \in {<<k, 0, 1>> : k \in Kinds}
 
 Enum == /\ phase = "blk"
-        /\ \E i \in 1..NCases(c[1]) : \E s \in (IF c[1] = "flt" THEN {1, -1} ELSE {1}) : c' = <<c[1], i, s>>
+        /\ \E i \in {j \in 1..NCases(c[1]) : (j - 1) % Stride = 0 \/ j = NCases(c[1])} :
+             \E s \in (IF c[1] = "flt" THEN {1, -1} ELSE {1}) : c' = <<c[1], i, s>>
         /\ phase' = "case" /\ UNCHANGED last
 
 IsInt == phase = "case" /\ c[1] \in IntFormats
